@@ -959,6 +959,7 @@ class OALParser(object):
     
     def t_TICKED_PHRASE(self, t):
         r"\'[^\']*\'"
+        t.lexer.lineno += t.value.count('\n')
         t.endlexpos = t.lexpos + len(t.value)
         return t
     
